@@ -161,6 +161,8 @@ func (s *sharedEntryAttributes) toXmlInternal(parent *etree.Element, onlyNewOrUp
 				})
 			}
 
+			inactiveCaseElems := s.choicesResolvers.GetSkipElements()
+
 			// iterate through all the childs
 			for _, k := range keys {
 
@@ -178,6 +180,10 @@ func (s *sharedEntryAttributes) toXmlInternal(parent *etree.Element, onlyNewOrUp
 				child, exists := s.childs.GetEntry(k)
 				if !exists {
 					return false, fmt.Errorf("child %s does not exist for %s", k, strings.Join(s.Path(), "/"))
+				}
+				// the elements of a choice case that is not the active one only appear to be deleted
+				if slices.Contains(inactiveCaseElems, k) && !child.shouldDelete() {
+					continue
 				}
 				doAdd, err := child.toXmlInternal(newElem, onlyNewOrUpdated, honorNamespace, operationWithNamespace, useOperationRemove)
 				if err != nil {
